@@ -64,20 +64,34 @@ def okC01 (ctx : Ctx) (acts : List (Act α)) : Bool :=
     && s.cs.all (fun e => e.2.1 == "W" || isElectedCode e.2.1 || e.2.1 == "D")
     && s.cs.all (fun e => !(isElectedCode e.2.1) || ctx.electable.contains e.1)
 
-/-- C02 for the Gregory family: Σ tallies + nt ≤ n, ≥ n − 2·ulp·nballots·T, nothing negative -/
-def okC02Gregory (ctx : Ctx) (units : Int → α) (acts : List (Act α)) : Bool :=
+/-- upper half of C02 on one snapshot: tallies of non-withdrawn candidates + non-transferable ≤ ballots, nothing negative -/
+def snapUpperB (nb : Nat) (sn : Snap α) : Bool :=
+  !(A.ltRaw (A.ofInt nb) (A.add (A.sum ((sn.cs.filter (fun e => e.2.1 != "W")).map (fun e => e.2.2.1))) sn.x1))
+  && (sn.cs.filter (fun e => e.2.1 != "W")).all (fun e => !(A.ltRaw e.2.2.1 A.zero))
+  && !(A.ltRaw sn.x1 A.zero)
+
+/-- ... on every snapshot of a record (proved `true` on every model record of wigm / wigm-prf: `wigm_C02_upper_check`) -/
+def recUpperB (nb : Nat) (acts : List (Act α)) : Bool :=
+  acts.all (fun a => match a.snap with
+                     | some sn => snapUpperB A nb sn
+                     | none => true)
+
+/-- lower half of C02: the shortfall is at most 2 units per ballot per surplus transfer so far (exact arithmetic: none) -/
+def recLowerB (ctx : Ctx) (units : Int → α) (acts : List (Act α)) : Bool :=
   let n := A.ofInt ctx.nballots
   let rec go (t : Nat) : List (Act α × Snap α) → Bool
     | [] => true
     | (a, s) :: rest =>
       let t' := if a.tag == "transfer" && (a.verb == "Surplus transferred" || a.verb == "Transfer surplus") then t + 1 else t
       let tot := A.add (A.sum ((s.cs.filter (fun e => e.2.1 != "W")).map (fun e => e.2.2.1))) s.x1
-      let upper := !(A.ltRaw n tot)
       let lower := if ctx.isRational then !(A.ltRaw tot n)
                    else !(A.ltRaw tot (A.sub n (units (2 * ctx.nballots * t'))))
-      let nonneg := (s.cs.filter (fun e => e.2.1 != "W")).all (fun e => !(A.ltRaw e.2.2.1 A.zero)) && !(A.ltRaw s.x1 A.zero)
-      upper && lower && nonneg && go t' rest
+      lower && go t' rest
   go 0 (snapsOf acts)
+
+/-- C02 for the Gregory family: Σ tallies + nt ≤ n, ≥ n − 2·ulp·nballots·T, nothing negative -/
+def okC02Gregory (ctx : Ctx) (units : Int → α) (acts : List (Act α)) : Bool :=
+  recUpperB A ctx.nballots acts && recLowerB A ctx units acts
 
 end Droop
 
